@@ -1,41 +1,47 @@
 #!/usr/bin/env python3
-"""Run registered checks against seeded changes: apply each patch to /repo, run demo + checks, undo.
-usage: seeded.py [dir ...]   (default: /verif/seeded/*)"""
-import glob, json, os, subprocess, sys
+"""Run every registered check against the seeded bug-introducing changes under /verif/seeded/<id>/ (not refactor-*).
+Each change is applied to a scratch copy of /repo (package + tests), its demo.py must exit 1 there and 0 on the clean
+tree, and the checks are run with --repo <scratch>. 16 workers. --record writes detected_by/verified into meta.json.
+(The same can be done in place: git -C /repo apply <patch>; ./check <ID>; git -C /repo checkout -- .)"""
+import concurrent.futures, glob, json, os, shutil, subprocess, sys, tempfile
 V = os.path.dirname(os.path.dirname(os.path.abspath(__file__)))
 record = "--record" in sys.argv
-dirs = [a for a in sys.argv[1:] if a != "--record"] or sorted(glob.glob(os.path.join(V, "seeded", "*")))
-man = json.load(open(os.path.join(V, "MANIFEST.json")))
-props = [c["property_id"] for c in man["checks"]]
+dirs = [a for a in sys.argv[1:] if a != "--record"] or [d for d in sorted(glob.glob(os.path.join(V, "seeded", "*"))) if not os.path.basename(d).startswith("refactor-")]
+props = [c["property_id"] for c in json.load(open(os.path.join(V, "MANIFEST.json")))["checks"]]
 def sh(cmd, **kw):
     return subprocess.run(cmd, shell=True, capture_output=True, text=True, **kw)
-assert sh("git -C /repo status --porcelain").stdout.strip() == "", "/repo is dirty"
-for d in dirs:
+def one(d):
     patch = os.path.join(d, "patch.diff")
     if not os.path.exists(patch):
-        continue
+        return None
     meta = json.load(open(os.path.join(d, "meta.json"))) if os.path.exists(os.path.join(d, "meta.json")) else {}
-    r = sh(f"git -C /repo apply {patch}")
-    if r.returncode:
-        print(f"{os.path.basename(d)}: PATCH DOES NOT APPLY: {r.stderr.strip()[:200]}")
-        continue
+    tmp = tempfile.mkdtemp(prefix="sa-seed-")
     try:
-        demo = sh(f"PYTHONPATH=/repo timeout 120 /venv/bin/python {os.path.join(d, 'demo.py')}", cwd=d) if os.path.exists(os.path.join(d, "demo.py")) else None
+        shutil.copytree("/repo/pdpy11", os.path.join(tmp, "pdpy11"))
+        r = sh(f"patch -p1 -s -i {patch}", cwd=tmp)
+        if r.returncode:
+            return f"{os.path.basename(d)}: PATCH DOES NOT APPLY: {r.stdout.strip()[:200]}"
+        demo = sh(f"PYTHONPATH={tmp} timeout 120 /venv/bin/python {os.path.join(d, 'demo.py')}", cwd=d) if os.path.exists(os.path.join(d, "demo.py")) else None
+        clean = sh(f"PYTHONPATH=/repo timeout 120 /venv/bin/python {os.path.join(d, 'demo.py')}", cwd=d) if demo is not None else None
         hits, errs = [], []
         for p in props:
-            c = sh(f"SA_NO_EVIDENCE=1 ./check {p}", cwd=V)
+            c = sh(f"SA_NO_EVIDENCE=1 ./check {p} --repo {tmp}", cwd=V)
             if c.returncode == 1:
                 rules = sorted({l.split("]")[0].strip()[1:] for l in c.stdout.splitlines() if l.startswith("  [")})
                 hits.append(f"{p}({','.join(rules)})")
             elif c.returncode != 0:
                 errs.append(p)
     finally:
-        sh("git -C /repo checkout -- .")
-    clean = sh(f"PYTHONPATH=/repo timeout 120 /venv/bin/python {os.path.join(d, 'demo.py')}", cwd=d) if demo is not None else None
+        shutil.rmtree(tmp, ignore_errors=True)
     if record and meta:
         meta["detected_by"] = hits
         meta["verified"] = {"demo_exit_with_change": demo.returncode if demo else None, "demo_exit_clean": clean.returncode if clean else None,
-                            "ran": "git -C /repo apply patch.diff; demo.py; ./check <all 19>; git -C /repo checkout -- .; demo.py"}
+                            "ran": "patch applied to a scratch copy of /repo; demo.py with PYTHONPATH=<scratch> and =/repo; ./check <all 19> --repo <scratch>"}
         json.dump(meta, open(os.path.join(d, "meta.json"), "w"), indent=1, ensure_ascii=False)
-    print(f"{os.path.basename(d)}: property={meta.get('property')} demo(mutated)={demo.returncode if demo else '-'} demo(clean)={clean.returncode if clean else '-'} "
-          f"DETECTED-BY={' '.join(hits) or 'NONE'}" + (f" analysis-errors={' '.join(errs)}" if errs else ""))
+    return (f"{os.path.basename(d)}: property={meta.get('property')} demo(mutated)={demo.returncode if demo else '-'} demo(clean)={clean.returncode if clean else '-'} "
+            f"DETECTED-BY={' '.join(hits) or 'NONE'}" + (f" analysis-errors={' '.join(errs)}" if errs else ""))
+if __name__ == "__main__":
+    with concurrent.futures.ThreadPoolExecutor(8) as ex:
+        for line in ex.map(one, dirs):
+            if line:
+                print(line, flush=True)
